@@ -6,7 +6,7 @@ import subprocess
 import sys
 
 VERIF = os.path.dirname(os.path.dirname(os.path.abspath(__file__)))
-EXTRA = {"C13-2": ["C15"], "C05-2": ["C01"]}
+EXTRA = {"C13-2": ["C15"], "C05-2": ["C01"], "C04-6": ["C20"], "C04-4": ["C05"]}
 
 
 def main():
